@@ -20,7 +20,8 @@ Verdict(t) ==
   LET fin == Run(t.toks) IN
   IF ~(\A k \in DOMAIN t.toks : IsToken(t.toks[k])) THEN "OOD token" ELSE
   IF Text(t.toks) # t.text THEN "OOD BadProposal" ELSE
-  IF ~Accepting(fin) THEN "OOD not-well-formed" ELSE
+  IF IllFormed(t.toks) THEN (IF t.exc = "" THEN "REJECT IllFormedRead" ELSE "ACCEPT") ELSE
+  IF ~Accepting(fin) THEN "OOD outside-the-module" ELSE
   IF t.exc # "" THEN "REJECT Raised" ELSE
   IF t.atoms # fin.atoms THEN "REJECT Atoms" ELSE
   IF \E k \in DOMAIN t.bonds : ~(t.bonds[k][1] \in DOMAIN t.atoms /\ t.bonds[k][2] \in DOMAIN t.atoms) THEN "REJECT BondEnds" ELSE
